@@ -129,6 +129,16 @@ func c12Observe(c *fw.Ctx, cs *c12Case, kind string, wire []byte, conformant boo
 	}
 	buf := arr[cs.Slack : cs.Slack+len(wire) : cs.Slack+len(wire)+cs.Slack/2]
 	copy(buf, wire)
+	if conformant && c.Index%3 == 0 {
+		// the buffer is a recycled one: the same frame (a retransmission, a periodic message) was received into it
+		// and parsed once before, and the buffer was used for something else in between
+		fw.Recover(func() { of.Parse(buf) })
+		for i := range arr {
+			arr[i] = 0xc3
+		}
+		copy(buf, wire)
+		c.Count("frames_parsed_a_second_time_from_the_recycled_buffer", 1)
+	}
 	var msg util.Message
 	var perr error
 	vd := fw.Guard(len(buf), func() { msg, perr = of.Parse(buf) })
